@@ -107,6 +107,16 @@ CHECKS.update({
    note="A hang is reported only if a second execution of the same schedule hangs again."),
 })
 
+EXTRA_TECHNIQUE = {
+ "C04": "; the wheel slots as intrusive lists: TLA+ spec List.tla (pointer grain, two link sets) model-checked by TLC, TLC walks (ListSim) replayed into real List objects and every call's read-back state validated by TLC (ListTrace); the code's own ticker in real time (idle periods, busy store) validated by TLC against RealTick.tla; busy-tick scenario (policy lock busy at the instant the ticker fires) validated by StoreTrace",
+ "C07": "; the region lists themselves: TLA+ spec List.tla (pointer grain: links, recorded size and count, region bits) model-checked by TLC, TLC walks (ListSim) replayed into real List objects and validated by TLC (ListTrace)",
+ "C13": "; hook-free stress of Group.Do on few keys (records recycled between keys) with stamped calls and invocations validated by TLC against SfStress.tla",
+ "C14": "; hybrid caches built through the public builders validated by TLC against HybridApi.tla",
+ "C15": "; hybrid caches built through every path of the public builders (Hybrid, AdmProbability, Hybrid.Loading, Loading.Hybrid) filled beyond MaxSize and read again, counts validated by TLC against HybridApi.tla",
+ "C20": "; for C20 also public-API programs with one write that displaces hundreds of entries followed by Wait (ApiTrace abulk rule)",
+}
+
+
 def main():
     props = [json.loads(l) for l in open(os.path.join(V, "properties.jsonl"))]
     hooks = subprocess.run(["git", "-C", "/repo", "log", "--format=%H %s", "--grep=^verif:"], stdout=subprocess.PIPE, text=True).stdout.strip().splitlines()
@@ -124,7 +134,7 @@ def main():
             "engine": "tlc+go-harness",
             "level_claimed": {"category": c["level"], "text": c["text"], "design_ref": "DESIGN.md section " + c["ref"]},
             "level_note": c["note"],
-            "technique": c["technique"],
+            "technique": c["technique"] + EXTRA_TECHNIQUE.get(p["id"], ""),
         })
     na = [{"property_id": p["id"], "reason": NA.get(p["id"], "check not built yet (work in progress; DESIGN.md section 7 gives the build order)")}
           for p in props if p["id"] not in CHECKS]
